@@ -130,6 +130,9 @@ TrClientNew ==
                        {"ClientNew"}
                        \cup (IF e.N # SrvN \/ e.g # SrvG THEN {"ClientNew.announcedGroup"} ELSE {})
                        \cup (IF out'.kind = "ok" /\ out'.A[32] = 0 THEN {"class.A.zeroPadded"} ELSE {})
+                       \cup (LET x == X(Text(e.user), Text(e.pass), e.salt)
+                             IN (IF x[1] = 0 THEN {"class.x.lowZero"} ELSE {}) \cup (IF x[20] = 0 THEN {"class.x.highZero"} ELSE {}))
+                       \cup (IF out'.kind = "ok" /\ (Uh(out'.A, e.B)[1] = 0 \/ Uh(out'.A, e.B)[20] = 0) THEN {"class.u.zeroEnd"} ELSE {})
                        \cup (IF BnCmp(e.B, BnMul(K3, Verifier(e.g, e.N, Text(e.user), Text(e.pass), e.salt))) < 0
                              THEN {"class.BminusKv.negative"} ELSE {"class.BminusKv.nonneg"}),
                   e.res.kind # out'.kind)
